@@ -3584,6 +3584,10 @@ func (m *Measurement) String() string {
 		_, _ = buf.WriteString(QuoteIdent(m.SystemIterator))
 	} else if m.Regex != nil {
 		_, _ = buf.WriteString(m.Regex.String())
+	} else if !m.IsTarget {
+		// The empty name is a name too (written ""). In an INTO target it
+		// stands for the :MEASUREMENT back reference, which Target prints.
+		_, _ = buf.WriteString(`""`)
 	}
 
 	return buf.String()
